@@ -36,7 +36,7 @@ def explore(ctx: Ctx, prefix: str, seed_salt: int):
     space = batch.export_by_print("MC_AlignCore", "Export_AlignCore.cfg", ctx.workdir, workers=4)
     step = 4 if quick else 1
     lattice = [alignlib.run_align(inp, True) for inp in space[::step]]
-    n = 2500 if quick else 80000
+    n = 4000 if quick else 80000
     ladder = gen.parallel(alignlib.ladder_records, ctx.seed * 9176 + seed_salt, n, chunk=250)
     records = lattice + ladder
     verdicts, r = batch.validate("Trace_AlignCore", "Trace_AlignCore.cfg", ctx.workdir, [strip(x) for x in records],
